@@ -298,6 +298,9 @@ func countMethodIfSwitch(statement IBlockStatementContext, bsInfo *bs_domain.Fun
 }
 
 func (s *BadSmellListener) EnterAnnotation(ctx *AnnotationContext) {
+	if ctx.QualifiedName() == nil {
+		return
+	}
 	if currentClzType == "Class" && ctx.QualifiedName().GetText() == "Override" {
 		currentClassBs.OverrideSize++
 	}
